@@ -39,11 +39,12 @@ BASES = [
 
 
 def boxes(thorough):
-    ends = [-1, 0, 1, 2, 3, 4, 5] if thorough else [-1, 1, 3, 5]
+    ends = [-1, 0, 1, 2, 3, 4, 5] if thorough else [-1, 2, 5]
     iv = [(a, b) for a in ends for b in ends if a < b]
     out = [(x0, y0, x1, y1) for (x0, x1) in iv for (y0, y1) in iv]
     # boxes that exactly cover single cells / the extent of typical partitions
-    out += [(0, 0, 2, 2), (0, 0, 4, 4), (2, 2, 4, 4), (-1, -1, 5, 5), (0, 2, 2, 4)]
+    out += [(0, 0, 2, 2), (0, 0, 4, 4), (2, 2, 4, 4), (-1, -1, 5, 5), (0, 2, 2, 4), (1, 1, 3, 3), (0, 0, 1, 1), (3, 3, 5, 5),
+            (-1, 3, 2, 5), (3, -1, 5, 1)]
     return out
 
 
@@ -62,7 +63,9 @@ def base_frame(bi, n):
 def right_frame():
     from spatialpandas import GeoDataFrame
     polys = L.make_array("polygon", [(sq(0, 0, 2, 2),), (sq(1, 1, 4, 4),), (sq(10, 10, 12, 12),)], "float64")
-    return GeoDataFrame({"geometry": polys, "rname": ["A", "B", "C"]})
+    import pandas as pd
+    # labels are deliberately not 0..n-1 (positions and labels must not be confused)
+    return GeoDataFrame({"geometry": polys, "rname": ["A", "B", "C"]}, index=pd.Index([2, 0, 1], name="rid"))
 
 
 def frame_rows(df, geom_cols):
@@ -269,6 +272,53 @@ def explore_base(col, bi, n, k, thorough, scratch, seed):
     col.sample({"base": bi, "n": n, "npartitions": k, "provenance": "filter", "mask": [1, 0, 1, 1][:n], "op": "cx[1:3, -1:5]"})
 
 
+def big_frame(active_kind):
+    """12 rows with pairwise different extents: more than ten partitions (textual vs numeric order)"""
+    import pandas as pd
+    from spatialpandas import GeoDataFrame
+    n = 12
+    pts = [(i, (i * 5) % 12) for i in range(n)]
+    polys = [(sq(2 * i, i % 4, 2 * i + 1, i % 4 + 1),) for i in range(n)]
+    if active_kind == "point":
+        a, o = L.make_array("point", pts, "float64"), L.make_array("polygon", polys, "float64")
+    else:
+        a, o = L.make_array("polygon", polys, "float64"), L.make_array("point", pts, "float64")
+    return GeoDataFrame({"other": o, "val": np.arange(n) * 10, "act": a}, index=pd.Index(np.arange(n) + 100, name="idx"),
+                        geometry="act")
+
+
+def explore_big(col, active_kind, scratch, thorough):
+    import dask.dataframe as dd
+    from spatialpandas.io import read_parquet_dask
+    P0 = big_frame(active_kind)
+    bxs = [(-1, -1, 3, 3), (4, 0, 9, 5), (10, -1, 25, 12), (0, 0, 30, 13), (20, 2, 23, 3), (5, 5, 6, 6), (11, 7, 11.5, 7.5)]
+    for k in ((11, 12) if not thorough else (10, 11, 12)):
+        ddf = dd.from_pandas(P0, npartitions=k)
+        case = {"base": "big:" + active_kind, "n": 12, "npartitions": k, "provenance": "from_pandas"}
+        compare_ops(col, ddf, case, bxs, {"act", "other"}, active_kind == "point", deep=True)
+        path = os.path.join(scratch, f"c06big-{os.getpid()}-{k}.parq")
+        ddf.to_parquet(path, overwrite=True)
+        for geometry in ("act", None):
+            case = {"base": "big:" + active_kind, "n": 12, "npartitions": k, "provenance": "parquet", "geometry": geometry}
+            r = read_parquet_dask(path, geometry=geometry)
+            akind = active_kind if geometry == "act" else ("polygon" if active_kind == "point" else "point")
+            compare_ops(col, r, case, bxs, {"act", "other"}, akind == "point", deep=True)
+            # the rows come back in the written order
+            got = r.compute(scheduler="synchronous")["val"].tolist()
+            if got != P0["val"].tolist():
+                col.violation("parquet.order", case, f"rows read back in order {got}")
+        for b in bxs:
+            case = {"base": "big:" + active_kind, "n": 12, "npartitions": k, "provenance": "parquet_bounds", "geometry": "act", "bounds": list(b)}
+            r = read_parquet_dask(path, geometry="act", bounds=b)
+            compare_ops(col, r, case, [b], {"act", "other"}, active_kind == "point", deep=False)
+            # pruning must not lose a row that intersects the box
+            need = P0.cx[b[0]:b[2], b[1]:b[3]]["val"].tolist()
+            have = r.compute(scheduler="synchronous")["val"].tolist()
+            col.count("evaluations")
+            if not set(need) <= set(have):
+                col.violation("parquet_bounds.lost_rows", case, f"bounds {b}: rows {need} intersect, read kept {have}")
+
+
 def run(ctx):
     scratch = ctx.scratch()
     n = 6 if ctx.thorough else 4
@@ -281,14 +331,19 @@ def run(ctx):
         P.cx[0:1, 0:1]
         P.geometry.area, P.geometry.length, P.geometry.bounds
 
+    units += [("big", "point", 0), ("big", "polygon", 0)]
+
     def work(col, i):
         bi, nn, k = units[i]
+        if bi == "big":
+            explore_big(col, nn, scratch, ctx.thorough)
+            return
         if nn == 6 and not ctx.thorough:
             explore_small(col, bi, nn, k, scratch, ctx.seed)
         else:
             explore_base(col, bi, nn, k, ctx.thorough, scratch, ctx.seed)
 
-    units.sort(key=lambda u: -u[1] * 10 - u[2])
+    units.sort(key=lambda u: (-u[1] * 10 - u[2]) if u[0] != "big" else -1000)
     core.pmap(ctx, work, len(units), timeout=7200)
     ctx.rule = ("base frames (4 kind pairs, n rows with missing/empty in both geometry columns) x from_pandas(k) for every "
                 "k in 1..n x every row mask (2^n) as a Dask filter (with/without cached partition bounds) x operations "
@@ -321,6 +376,9 @@ def replay(ctx, case):
     col = core.Collector()
     scratch = ctx.scratch()
     bi, n, k = case["base"], case["n"], case["npartitions"]
+    if isinstance(bi, str):
+        explore_big(col, bi.split(":")[1], scratch, False)
+        return col.violations
     P0 = base_frame(bi, n)
     ddf = dd.from_pandas(P0, npartitions=k)
     bxs = [tuple(case["box"])] if case.get("box") else boxes(False)
